@@ -93,7 +93,7 @@ FromBuffers(F, n, C, path) ==
     [] F.c = "ByteMasked" ->
          LET m == Buf(C, path, "mask") IN
          IF n > Len(m) THEN Bad
-         ELSE LET x == FromBuffers(F.x, n, C, path \o <<1>>) IN IF IsBad(x) THEN Bad ELSE ByteMasked(m, F.vw, x)
+         ELSE LET x == FromBuffers(F.x, n, C, path \o <<1>>) IN IF IsBad(x) THEN Bad ELSE ByteMasked(SubSeq(m, 1, n), F.vw, x)     \* (F79)
     [] F.c = "BitMasked" ->
          LET m == Buf(C, path, "mask")
              x == FromBuffers(F.x, n, C, path \o <<1>>) IN
